@@ -254,6 +254,40 @@ func genSchema(r *rng.R) *schemaDef {
 		}
 		objs = append(objs, t)
 	}
+	// Object types may differ from the interface (and from each other) in the DEFAULTS of a field's
+	// arguments and may add nullable arguments of their own: one field node selected through an
+	// interface is then coerced against different argument definitions, item by item.
+	for _, t := range objs {
+		for _, f := range t.fields {
+			base := s.poolArgs[f.name]
+			if len(base) == 0 || !r.Chance(1, 2) {
+				continue
+			}
+			var own []argDef
+			for _, a := range base {
+				switch {
+				case a.ty.kind == '!' && a.def == nil: // required: nothing to vary
+				case a.ty.String() == "Int" || a.ty.String() == "Int!":
+					a.def = r.Range(1, 9)
+				case a.ty.String() == "String":
+					a.def = rng.Pick(r, []interface{}{"d", "own", nil})
+				case a.ty.String() == "Boolean":
+					a.def = rng.Pick(r, []interface{}{true, false, nil})
+				case a.ty.String() == "EIn":
+					a.def = rng.Pick(r, []interface{}{"EA", "EB", "EC"})
+				}
+				own = append(own, a)
+			}
+			if r.Chance(1, 3) {
+				own = append(own, argDef{"xk", named("Int"), r.Range(1, 9)})
+				sort.Slice(own, func(i, j int) bool { return own[i].name < own[j].name })
+			}
+			if t.fargs == nil {
+				t.fargs = map[string][]argDef{}
+			}
+			t.fargs[f.name] = own
+		}
+	}
 	for _, t := range objs {
 		s.add(t)
 	}
@@ -386,6 +420,15 @@ func (g *docGen) selSet(scope string, depth int, fragDepth int) string {
 				alias = "m: "
 			}
 			// one response key, one argument list (fields under one key must have identical arguments)
+			// an argument only this object type declares can only be given where the scope is that
+			// object type, and under a response key of its own
+			if alias == "" && t.kind == "object" && g.r.Chance(1, 3) {
+				for _, a := range t.fargs[f.name] {
+					if a.name == "xk" {
+						alias = "xa_" + t.name + "_" + f.name + ": "
+					}
+				}
+			}
 			rkey := strings.TrimSuffix(strings.TrimSpace(alias), ":") + "/" + f.name
 			// twin sites: ONE field node (inside a new named fragment) merges with different sibling
 			// nodes at two spread sites of the same type; the two merged sub-selection lists have
@@ -418,7 +461,7 @@ func (g *docGen) selSet(scope string, depth int, fragDepth int) string {
 			}
 			argText, ok := g.argTexts[rkey]
 			if !ok || (g.hostile && g.r.Chance(1, 6)) { // hostile: differing arguments under one response key
-				argText = g.argsText(f.name)
+				argText = g.argsText(f.name, strings.HasPrefix(alias, "xa_"), t)
 				g.argTexts[rkey] = argText
 			}
 			sel := alias + f.name + argText + g.directives()
